@@ -31,19 +31,19 @@ type Config struct {
 }
 
 type Violation struct {
-	ID      string            `json:"id"`
-	Kind    string            `json:"kind"` // assert | panic | deadlock | unwind
-	Msg     string            `json:"msg"`
-	Pos     string            `json:"pos"`
-	Model   map[string]string `json:"model"`
-	Trace   []string          `json:"trace"`
-	Path    []int             `json:"path"`
-	Stack   []string          `json:"stack"`
-	Draws   []Draw            `json:"draws"`
-	Unknown bool              `json:"unknown,omitempty"` // solver could not decide
-	JSON     []JSONDoc        `json:"json_docs,omitempty"`
-	Contains []ContainsVal    `json:"contains,omitempty"`
-	Func     string           `json:"func"` // innermost module function on the stack
+	ID       string            `json:"id"`
+	Kind     string            `json:"kind"` // assert | panic | deadlock | unwind
+	Msg      string            `json:"msg"`
+	Pos      string            `json:"pos"`
+	Model    map[string]string `json:"model"`
+	Trace    []string          `json:"trace"`
+	Path     []int             `json:"path"`
+	Stack    []string          `json:"stack"`
+	Draws    []Draw            `json:"draws"`
+	Unknown  bool              `json:"unknown,omitempty"` // solver could not decide
+	JSON     []JSONDoc         `json:"json_docs,omitempty"`
+	Contains []ContainsVal     `json:"contains,omitempty"`
+	Func     string            `json:"func"` // innermost module function on the stack
 }
 
 // Draw is one zzvrt draw along the path, in program order, with its model value.
@@ -62,26 +62,26 @@ type PathSummary struct {
 }
 
 type Result struct {
-	Entry          string          `json:"entry"`
-	Paths          int             `json:"paths"`
-	PathEnds       map[string]int  `json:"path_ends"`
-	Violations     []Violation     `json:"violations"`
-	Covers         map[string]int  `json:"covers"`
-	Facts          map[string]int  `json:"facts"`
-	Functions      []string        `json:"functions_encoded"`
-	Unmodelled     []string        `json:"unmodelled_calls"`
-	Stubs          []string        `json:"stubs_used"`
-	Queries        smt.Stats       `json:"queries"`
-	SolverTimeS    float64         `json:"solver_time_s"`
-	WallS          float64         `json:"wall_s"`
-	Incomplete     []string        `json:"incomplete"`
-	UnknownBranch  int             `json:"unknown_branches"`
-	Steps          int             `json:"steps"`
-	Samples        []PathSummary   `json:"samples"`
-	MaxDepthSeen   int             `json:"max_call_depth_seen"`
-	MaxLoopSeen    int             `json:"max_loop_iter_seen"`
-	SchedPoints    int             `json:"sched_points"`
-	Files          map[string]bool `json:"-"`
+	Entry         string          `json:"entry"`
+	Paths         int             `json:"paths"`
+	PathEnds      map[string]int  `json:"path_ends"`
+	Violations    []Violation     `json:"violations"`
+	Covers        map[string]int  `json:"covers"`
+	Facts         map[string]int  `json:"facts"`
+	Functions     []string        `json:"functions_encoded"`
+	Unmodelled    []string        `json:"unmodelled_calls"`
+	Stubs         []string        `json:"stubs_used"`
+	Queries       smt.Stats       `json:"queries"`
+	SolverTimeS   float64         `json:"solver_time_s"`
+	WallS         float64         `json:"wall_s"`
+	Incomplete    []string        `json:"incomplete"`
+	UnknownBranch int             `json:"unknown_branches"`
+	Steps         int             `json:"steps"`
+	Samples       []PathSummary   `json:"samples"`
+	MaxDepthSeen  int             `json:"max_call_depth_seen"`
+	MaxLoopSeen   int             `json:"max_loop_iter_seen"`
+	SchedPoints   int             `json:"sched_points"`
+	Files         map[string]bool `json:"-"`
 }
 
 type Engine struct {
@@ -106,17 +106,17 @@ type pathEnd struct {
 }
 
 type Frame struct {
-	Fn       *ssa.Function
-	Block    *ssa.BasicBlock
-	Prev     *ssa.BasicBlock
-	PC       int
-	Regs     map[ssa.Value]Val
-	Binds    []Val
-	Defers   []deferred
-	ResultTo ssa.Value // call instruction in the caller to receive the result (nil: discard)
-	Loops    map[int]int
-	IsDefer  bool
-	OnReturn func(ret Val) // engine continuation (used by Once.Do etc.)
+	Fn        *ssa.Function
+	Block     *ssa.BasicBlock
+	Prev      *ssa.BasicBlock
+	PC        int
+	Regs      map[ssa.Value]Val
+	Binds     []Val
+	Defers    []deferred
+	ResultTo  ssa.Value // call instruction in the caller to receive the result (nil: discard)
+	Loops     map[int]int
+	IsDefer   bool
+	OnReturn  func(ret Val) // engine continuation (used by Once.Do etc.)
 	Panicking bool
 }
 
@@ -157,32 +157,32 @@ type namedVar struct {
 }
 
 type State struct {
-	eng        *Engine
-	sol        *smt.Solver
-	gs         []*G
-	cur        int
-	pcond      []*Term
-	dec        []int
-	pos        int
-	taken      []int
-	locCounter int
-	idCounter  int
-	varCounter map[string]int
-	decls      []namedVar
-	draws      []Draw
-	trace      []string
-	globals    map[*ssa.Global]*Loc
-	steps      int
-	preempts   int
-	timersOn   bool
-	jsonCache  map[string]Val
-	ufCache    map[string]Val
-	lastSwitch bool
-	unknown    int
-	endKind    string
-	accessLog  []Access
-	logAccess  bool
-	jsonCalls  []jsonCall
+	eng         *Engine
+	sol         *smt.Solver
+	gs          []*G
+	cur         int
+	pcond       []*Term
+	dec         []int
+	pos         int
+	taken       []int
+	locCounter  int
+	idCounter   int
+	varCounter  map[string]int
+	decls       []namedVar
+	draws       []Draw
+	trace       []string
+	globals     map[*ssa.Global]*Loc
+	steps       int
+	preempts    int
+	timersOn    bool
+	jsonCache   map[string]Val
+	ufCache     map[string]Val
+	lastSwitch  bool
+	unknown     int
+	endKind     string
+	accessLog   []Access
+	logAccess   bool
+	jsonCalls   []jsonCall
 	containsObs []containsObs
 }
 
@@ -458,7 +458,12 @@ func (e *Engine) runPath(entry *ssa.Function, dec []int) {
 					msg = pe.msg
 					return
 				}
-				panic(r)
+				end = "engine-error"
+				msg = fmt.Sprint(r)
+				if len(msg) > 300 {
+					msg = msg[:300]
+				}
+				return
 			}
 		}()
 		st.runInits()
